@@ -105,6 +105,15 @@ PROPS = {
                      "`|ws://` covers both websocket schemes here; the ws-vs-wss distinction is judged (and recorded) under C02"],
         floors=(2_000_000, 20_000, 4_000_000, 40_000),
     ),
+    "C05": simple(
+        rule="case = (clustered rule list L whose rules share buckets and fusion groups, 3 tag sets, 8 rule-derived requests); evaluation = "
+             "verdict tuple of Engine(L, optimize=true) vs Engine(L, optimize=false) vs an unoptimised Blocker, then the same Blocker after "
+             "optimize() vs its own earlier answers; equality ignores only the debug text; non-trivial = the optimised twin contains >= 1 fused "
+             "rule (seen through the H4 walker) and O-scan reports >= 1 matching rule; distinct = hash of (L, T, url, source, type). "
+             "Thorough adds the corpus engine twins over the recorded requests.",
+        assumptions=["both twins are built by the same build of the crate from the same lines"],
+        floors=(300_000, 20_000, 5_000_000, 300_000),
+    ),
 }
 
 # ---------------------------------------------------------------------------------------------
@@ -138,6 +147,14 @@ MANIFEST_TEXT = {
         "note": "The pattern side is fixed so that options decide; reference choices where the statement is silent are listed in the evidence assumptions.",
         "technique": "runtime monitoring: exhaustive cross-product + random differential against a reference option interpreter",
         "design_ref": "DESIGN.md §4.3",
+    },
+    "C05": {
+        "text": "Runtime differential twins: optimised vs unoptimised engines (and a live Blocker before/after optimize()) answer the same "
+                "requests under several tag sets; lists are generated so that rules share buckets and fusion groups, and fusion actually "
+                "happening is measured through a walker hook.",
+        "note": "Differential only (both sides are the code under test); absolute correctness of each side is C01's job.",
+        "technique": "runtime monitoring: differential twins + hook-measured fusion coverage",
+        "design_ref": "DESIGN.md §4.5",
     },
 }
 
